@@ -2,12 +2,12 @@
    all classes meets every premise. *)
 From Coq Require Import String Ascii.
 From Coq Require Import List Arith Bool.
-Require Import TT.Model.Str TT.Model.Pipeline TT.Spec.C02Closed TT.Model.C02Model TT.Model.C02Samples.
+Require Import TT.Model.Str TT.Model.Pipeline TT.Spec.C02Closed TT.Model.C02Model TT.Spec.C02Domain TT.Model.C02Samples.
 Require Import TT.Proofs.C02Reflect.
 Import ListNotations.
 
 Definition in_class (kf : bool) (p : proj) (zod : bool) : Prop :=
-  wf p = true /\ closed_world p = true /\ kf = true /\ c02_ok (gen p zod) = false.
+  wf p = true /\ dom p = true /\ closed_world p = true /\ kf = true /\ c02_ok (gen p zod) = false.
 
 Lemma w_ok_premises : wf w_ok = true /\ closed_world w_ok = true /\ refs_declared w_ok = true /\
                       kf_C02 w_ok false = false /\ kf_C02 w_ok true = false /\ broken w_ok = false /\
@@ -21,7 +21,7 @@ Lemma w_prefix_fails : in_class (kf_prefix w_prefix) w_prefix false /\ in_class 
 Proof. vm_compute. repeat split; reflexivity. Qed.
 (* repaired defects: the former witnesses now satisfy the property, outside every class *)
 Definition repaired (p : proj) (zod : bool) : Prop :=
-  wf p = true /\ closed_world p = true /\ refs_declared p = true /\ kf_C02 p zod = false /\ c02_ok (gen p zod) = true.
+  wf p = true /\ dom p = true /\ closed_world p = true /\ refs_declared p = true /\ kf_C02 p zod = false /\ c02_ok (gen p zod) = true.
 Lemma w_batch3_repaired : repaired w_tuple_map_field false /\ repaired w_tuple_map_field true /\
                           repaired w_prefix2 false /\ repaired w_vecvec_user true.
 Proof. vm_compute. repeat split; reflexivity. Qed.
@@ -43,6 +43,6 @@ Lemma w_collision_fails : in_class (kf_collision w_collision false) w_collision 
 Proof. vm_compute. repeat split; reflexivity. Qed.
 
 Theorem closed_world_refuted : exists p zod,
-  wf p = true /\ closed_world p = true /\ ~ (closed (gen p zod) /\ exports_nodup (gen p zod)).
-Proof. exists w_prefix, false. destruct w_prefix_fails as [[Hw [Hc [_ Hf]]] _]. split; [exact Hw|]. split; [exact Hc|].
+  wf p = true /\ dom p = true /\ closed_world p = true /\ ~ (closed (gen p zod) /\ exports_nodup (gen p zod)).
+Proof. exists w_prefix, false. destruct w_prefix_fails as [[Hw [Hd [Hc [_ Hf]]]] _]. split; [exact Hw|]. split; [exact Hd|]. split; [exact Hc|].
   intros H. apply c02_ok_iff in H. rewrite Hf in H. discriminate. Qed.
